@@ -297,12 +297,13 @@ func replay(repro map[string]any) (string, bool) {
 
 func main() {
 	bex.Main(&bex.Check{
-		ID:    "C16",
-		Level: "exploration",
-		Rule: "each enumerated program over attributes a,b,l is generated with GenerateWithMap(exp,\"this\") and, after the checks' own free-variable substitution x -> this.x on the AST, with Generate(exp',\"this\"); both are evaluated on the same map in several representations, optimizer on and off; Generate-time success and outcomes must agree. distinct_nontrivial = distinct source texts that use at least one attribute implicitly and evaluate to a value other than 0",
+		ID:          "C16",
+		Level:       "exploration",
+		Rule:        "each enumerated program over attributes a,b,l is generated with GenerateWithMap(exp,\"this\") and, after the checks' own free-variable substitution x -> this.x on the AST, with Generate(exp',\"this\"); both are evaluated on the same map in several representations, optimizer on and off; Generate-time success and outcomes must agree. distinct_nontrivial = distinct source texts that use at least one attribute implicitly and evaluate to a value other than 0",
 		Assumptions: []string{"the explicit form's own correctness against the reference semantics is C01's business"},
-		QuickBudget:  60e9, ThoroughBudget: 25 * 60e9,
-		Run:    run,
-		Replay: replay,
+		QuickBudget: 60e9, ThoroughBudget: 25 * 60e9,
+		Run:              run,
+		Replay:           replay,
+		CrashIsViolation: true, // a worker process that dies while it executes a case on the library is a verdict on that case
 	})
 }
